@@ -203,3 +203,13 @@ Example cost_of_a_page :
   edges_multiplier a {| CostModel.k_user := tt; CostModel.k_max_edge := None |} = Some 2
   /\ length (TimeRef E20 a) = 2%nat.
 Proof. vm_compute. split; reflexivity. Qed.
+
+(** a promise resolving to a non-slice value beside a failing promise: the real error wins (the
+    callback that would reject the value is never called); alone it is the non-slice error *)
+Example non_slice_answers :
+  (let ps := fun i => match i with O => px true BadValue | 1%nat => px true (Err 1) | _ => px false NoErr end in
+   fst (fst (xconn current true (g_exact E20) ps s_both (TCVal 6) a_three)) = XFieldError [EGetter 1])
+  /\ (let ps := fun i => match i with O => px true BadValue | _ => px false NoErr end in
+      fst (fst (xconn current true (g_exact E20) ps s_both (TCVal 6) a_three)) = XFieldError [ENonSlice])
+  /\ no_bad (fun _ => px true NoErr).
+Proof. split; [vm_compute; reflexivity|]. split; [vm_compute; reflexivity|]. intros j. discriminate. Qed.
